@@ -140,7 +140,16 @@ def _hooks(module, anchor):
                     note="the class is pickled by Python's default protocol (trusted); a custom hook would need its own contract")
 
 
-VARIANTS = [_hooks(M, "RefCount.append"), _hooks("xdeps/tasks.py", "Manager.__init__"),
+def _inherits(cname, anchor):
+    """the concrete reference classes inherit MutableRef.__reduce__ (proved: it returns type(self) and the three slots): none of them may
+    define a pickle/copy hook of its own (a hard-coded class would restore an ObjectAttrRef as a plain Ref)"""
+    c = _hooks(M, anchor)
+    c.note = "concrete reference class: pickled through the inherited MutableRef.__reduce__ (type(self) preserved); no own hook"
+    return c
+
+
+VARIANTS = [_inherits("Ref", "Ref.__cinit__"), _inherits("AttrRef", "AttrRef.__cinit__"), _inherits("ItemRef", "ItemRef.__cinit__"),
+            _inherits("ObjectAttrRef", "ObjectAttrRef.__getattr__"), _hooks(M, "RefCount.append"), _hooks("xdeps/tasks.py", "Manager.__init__"),
             _hooks("xdeps/tasks.py", "ExprTask.__init__"), _hooks("xdeps/tasks.py", "FunctionTask.__init__"),
             _hooks("xdeps/tasks.py", "LinearKnob.__init__")]
 
